@@ -298,6 +298,11 @@ class Limit(Exception):
     pass
 
 
+# keys of the local functions whose bodies any engine of this process has interpreted (entry points and inlined callees):
+# reported in the evidence as what was analysed
+COVERED = set()
+
+
 class Engine:
     def __init__(self, facts, max_paths=20000, max_steps=4000, max_depth=24, overflow_panics=None):
         self.F = facts
@@ -1383,6 +1388,8 @@ class Engine:
             self.reset()
             st = St()
         self.nfid += 1
+        if fn.get("local"):
+            COVERED.add(fn["key"])
         fr = Frame(fn, self.nfid)
         st.frames = [fr]
         n = fn["arg_count"]
@@ -1719,6 +1726,8 @@ class Engine:
                     st.end = "limit"
                     return [st]
                 self.stats["calls_inlined"] += 1
+                if callee.get("local"):
+                    COVERED.add(callee["key"])
                 self.nfid += 1
                 nf = Frame(callee, self.nfid, dest=dest, ret_bb=t["t"])
                 n = callee["arg_count"]
